@@ -813,3 +813,271 @@ pub fn c13(a: &Analysis, scn: &Scenario, o: &RunOutcome) -> Vec<Violation> {
     }
     out
 }
+
+// =========================================================================== C12
+
+fn relabel(vs: Vec<Violation>, prop: &'static str, class_prefix: bool) -> Vec<Violation> {
+    vs.into_iter()
+        .map(|mut x| {
+            if class_prefix {
+                x.class = format!("{}_{}", x.prop, x.class);
+            }
+            x.prop = prop;
+            x
+        })
+        .collect()
+}
+
+/// Handle churn is invisible: exactly-once, order, capacity bound and the quiescent state
+/// are checked unchanged while the handle population changes.
+pub fn c12(a: &Analysis, scn: &Scenario) -> Vec<Violation> {
+    let mut out = Vec::new();
+    out.extend(relabel(c01(a, scn), "C12", true));
+    out.extend(relabel(c02(a, scn), "C12", true));
+    out.extend(relabel(c03(a, scn), "C12", true));
+    out.extend(relabel(c06(a, scn), "C12", true));
+    // tag with the last membership change before the end of the concurrent phase
+    let last = a
+        .recs
+        .iter()
+        .filter(|r| r.phase == 0 && matches!(r.op, OpK::CloneSender | OpK::DropSender | OpK::CloneRecv | OpK::DropRecv | OpK::Unsub | OpK::IntoSingle | OpK::IntoMulti))
+        .last()
+        .map(|r| r.op.name().to_string());
+    if let Some(l) = last {
+        for x in out.iter_mut() {
+            x.tags.push(format!("last_membership_change={}", l));
+        }
+    }
+    out
+}
+
+// =========================================================================== C10
+
+/// add_stream: the new stream is a gap-free suffix whose start lies in the interval the
+/// parent position swept during the call; nothing happens to the other streams.
+pub fn c10(a: &Analysis, scn: &Scenario) -> Vec<Violation> {
+    let mut out = Vec::new();
+    // streams created during the concurrent phase by add_stream
+    let added: Vec<u32> = a.streams.values().filter(|s| s.parent.is_some() && a.recs[s.add_rec].phase == 0 && s.add_inv >= a.first_send_inv.min(u64::MAX)).map(|s| s.id).collect();
+    let all_added: Vec<u32> = a.streams.values().filter(|s| s.parent.is_some()).map(|s| s.id).collect();
+    // hazard: a successful receive on the parent stream overlapped an add_stream call
+    let mut hazard = false;
+    for sid in &all_added {
+        let s = &a.streams[sid];
+        if let Some(p) = s.parent.and_then(|p| a.streams.get(&p)) {
+            for &d in &p.deliveries {
+                let r = &a.recs[d];
+                let ret = if r.t_ret == 0 { u64::MAX } else { r.t_ret };
+                if r.t_inv < s.add_ret && ret > s.add_inv {
+                    hazard = true;
+                }
+            }
+        }
+    }
+    let per_stream = c01(a, scn);
+    for x in per_stream {
+        // which stream does the C01 finding speak about?
+        let is_new = all_added.iter().any(|sid| x.msg.contains(&format!("stream s{} ", sid)));
+        let class = if is_new { "new_stream_gap" } else { "existing_stream_lost" };
+        out.push(Violation { prop: "C10", class: class.to_string(), site: "add_stream".into(), tags: x.tags.clone(), msg: format!("{} [{}]", x.msg, x.class) });
+    }
+    for x in c02(a, scn) {
+        out.push(Violation { prop: "C10", class: "existing_stream_lost".into(), site: "add_stream".into(), tags: x.tags.clone(), msg: format!("{} [order: {}]", x.msg, x.class) });
+    }
+    for x in c03(a, scn).into_iter().chain(c06(a, scn)) {
+        out.push(Violation { prop: "C10", class: "backpressure_lost".into(), site: "add_stream".into(), tags: x.tags.clone(), msg: format!("{} [{}.{}]", x.msg, x.prop, x.class) });
+    }
+    // start position of every drained new stream
+    if a.complete {
+        for sid in &added {
+            if !stream_complete(a, scn, *sid) {
+                continue;
+            }
+            let (lo, hi) = a.start_bounds(*sid);
+            let delivered = a.streams[sid].deliveries.len() as u64;
+            let acc = a.accepted.len() as u64;
+            if delivered > acc {
+                continue;
+            }
+            let p = acc - delivered;
+            if p < lo || p > hi {
+                out.push(v(
+                    "C10",
+                    "new_stream_wrong_start",
+                    "add_stream",
+                    format!(
+                        "stream s{} (added from s{}) skipped {} accepted value(s); its parent's position during the call was within {}..={}",
+                        sid,
+                        a.streams[sid].parent.unwrap(),
+                        p,
+                        lo,
+                        hi
+                    ),
+                ));
+            }
+        }
+    }
+    if hazard {
+        for x in out.iter_mut() {
+            x.tags.push("hazard=parent_moved_during_call".into());
+        }
+    }
+    out
+}
+
+// =========================================================================== C11
+
+/// After its last handle is gone a stream no longer limits senders; the others keep their
+/// values and their backpressure; unsubscribe reports "was last" truthfully.
+pub fn c11(a: &Analysis, scn: &Scenario, o: &RunOutcome) -> Vec<Violation> {
+    let mut out = Vec::new();
+    let n = scn.queue.capacity() as i64;
+    // 1. a send that overlaps no other call and is made after a removal completed must
+    //    behave exactly like the model: refused iff the slowest remaining stream has N
+    //    outstanding
+    let removed: Vec<u64> = a.streams.values().filter_map(|s| s.gone_ret).collect();
+    if let Some(&first_gone) = removed.iter().min() {
+        for (i, r) in a.recs.iter().enumerate() {
+            if !(r.op == OpK::TrySend && r.t_ret != 0 && r.t_inv > first_gone && r.phase == 0) {
+                continue;
+            }
+            // isolated: no other call overlaps [t_inv, t_ret]
+            let overlaps = a.recs.iter().enumerate().any(|(j, q)| {
+                j != i && q.op != OpK::Create && q.t_inv < r.t_ret && (q.t_ret == 0 || q.t_ret > r.t_inv)
+            });
+            if overlaps {
+                continue;
+            }
+            let acc = a.accepted_by_ret.iter().filter(|&&k| a.recs[k].t_ret < r.t_inv).count() as i64;
+            let mut worst: i64 = i64::MIN;
+            let mut any = false;
+            let mut exact = true;
+            for (sid, s) in &a.streams {
+                let alive = s.add_ret < r.t_inv && s.gone_inv.map(|g| g > r.t_ret).unwrap_or(true);
+                let gone = s.gone_ret.map(|g| g < r.t_inv).unwrap_or(false);
+                if !alive {
+                    if !gone {
+                        exact = false; // being added / removed right now
+                    }
+                    continue;
+                }
+                any = true;
+                let (lo, hi) = a.start_bounds(*sid);
+                if lo != hi {
+                    exact = false;
+                }
+                let rcv = s.deliveries.iter().filter(|&&d| a.recs[d].t_ret != 0 && a.recs[d].t_ret < r.t_inv).count() as i64;
+                worst = worst.max(acc - lo as i64 - rcv);
+            }
+            if !any || !exact {
+                continue;
+            }
+            if r.res == Res::Full && worst < n {
+                out.push(v(
+                    "C11",
+                    "still_blocked_after_removal",
+                    "try_send",
+                    format!(
+                        "a stream was removed by t={}; with no other call in flight the slowest remaining stream had {} < N = {} outstanding, yet the send was refused: {}",
+                        first_gone,
+                        worst,
+                        n,
+                        fmt_rec(r)
+                    ),
+                ));
+                break;
+            }
+            if r.res == Res::Ok && worst >= n {
+                out.push(v(
+                    "C11",
+                    "other_stream_affected",
+                    "try_send",
+                    format!("with no other call in flight a remaining stream had {} >= N = {} outstanding, yet the send was accepted: {}", worst, n, fmt_rec(r)),
+                ));
+                break;
+            }
+        }
+    }
+    // liveness: producers retry until accepted, so a run that cannot finish means a sender
+    // is still held back although the stream that filled the queue is gone
+    if matches!(o.end, End::Deadlock | End::Livelock) {
+        let st = stuck_info(a, o);
+        let sender_stuck = st.open.iter().any(|r| r.op.is_send()) || st.parked.iter().any(|r| r.op == OpK::StartSend) || a.recs.iter().rev().take(50).any(|r| r.op.is_send() && matches!(r.res, Res::Full | Res::NotReady));
+        if sender_stuck && !removed.is_empty() {
+            out.push(v("C11", "still_blocked_after_removal", "try_send", st.text));
+        }
+    }
+    // 2. the remaining streams are unaffected
+    out.extend(c01(a, scn).into_iter().chain(c02(a, scn)).chain(c03(a, scn)).chain(c06(a, scn)).map(|x| Violation {
+        prop: "C11",
+        class: "other_stream_affected".into(),
+        site: x.site.clone(),
+        tags: x.tags.clone(),
+        msg: format!("{} [{}.{}]", x.msg, x.prop, x.class),
+    }));
+    // 3. unsubscribe's answer
+    for r in a.recs.iter().filter(|r| r.op == OpK::Unsub && r.t_ret != 0) {
+        let b = match r.res {
+            Res::Bool(b) => b,
+            _ => continue,
+        };
+        let others: Vec<&crate::analysis::HandleInfo> = a.handles.values().filter(|h| !h.sender && h.stream == r.stream && h.id != r.h).collect();
+        // handles that certainly existed during the whole call / that may have existed at some instant of it
+        let surely = others.iter().filter(|h| h.born_ret < r.t_inv && h.drop_inv.map(|d| d > r.t_ret).unwrap_or(true)).count();
+        let maybe = others.iter().filter(|h| h.born_inv < r.t_ret && h.drop_ret.map(|d| d > r.t_inv).unwrap_or(true)).count();
+        if b && surely >= 1 {
+            out.push(v("C11", "unsubscribe_bool", "unsubscribe(receiver)", format!("unsubscribe returned true although {} other handle(s) of stream s{} were alive during the whole call: {}", surely, r.stream, fmt_rec(r))));
+        }
+        if !b && maybe == 0 {
+            out.push(v("C11", "unsubscribe_bool", "unsubscribe(receiver)", format!("unsubscribe returned false although the handle was the only one on stream s{}: {}", r.stream, fmt_rec(r))));
+        }
+    }
+    out
+}
+
+// =========================================================================== C17
+
+pub const C17_SLACK: i64 = 16 * 1024;
+
+/// Memory: everything is released at teardown; under churn with all handles operating the
+/// live bytes reach a plateau.
+pub fn c17(o: &RunOutcome) -> Vec<Violation> {
+    let mut out = Vec::new();
+    if o.end == End::Completed && o.fin.teardown_done {
+        if o.fin.live_bytes_after != 0 || o.fin.live_blocks_after != 0 {
+            out.push(v(
+                "C17",
+                "teardown_leak",
+                "drop",
+                format!(
+                    "after the last handle was dropped {} byte(s) in {} block(s) allocated by the queue are still live ({} byte(s) in {} block(s) of them came from the queue's own allocate())",
+                    o.fin.live_bytes_after, o.fin.live_blocks_after, o.fin.seam_bytes_after, o.fin.seam_blocks_after
+                ) + &format!("; survivors of allocate(): {:?}", {
+                    let mut m: BTreeMap<String, (usize, usize)> = BTreeMap::new();
+                    for (t, b) in &o.fin.seam_survivors {
+                        let e = m.entry(t.clone()).or_default();
+                        e.0 += 1;
+                        e.1 += b;
+                    }
+                    m
+                }),
+            ));
+        }
+    }
+    // churn plateau: max over the last half must not exceed max over [1/8, 1/4] by more than the slack
+    let s = &o.fin.samples;
+    if s.len() >= 64 {
+        let c = s.len();
+        let early = s[c / 8..c / 4].iter().map(|x| x.1).max().unwrap_or(0);
+        let late = s[c / 2..].iter().map(|x| x.1).max().unwrap_or(0);
+        if late > early + C17_SLACK {
+            out.push(v(
+                "C17",
+                "unbounded_growth",
+                "churn",
+                format!("live bytes grew from at most {} (cycles {}..{}) to {} (cycles {}..{}) while a fixed set of handles kept operating", early, c / 8, c / 4, late, c / 2, c),
+            ));
+        }
+    }
+    out
+}
